@@ -338,6 +338,8 @@ pub trait Sut: Send {
     fn save_size(&self) -> Result<u64, String>;
     /// `bincode::deserialize` into the same type
     fn load(&self, bytes: &[u8]) -> Result<Box<dyn Sut>, String>;
+    /// `bincode::deserialize_from` an `io::Read`
+    fn load_reader(&self, bytes: &[u8]) -> Result<Box<dyn Sut>, String>;
     /// `serde_json::to_string` (a human-readable format; fails on non-finite state, which JSON cannot carry)
     fn save_json(&self) -> Result<String, String>;
     fn load_json(&self, text: &str) -> Result<Box<dyn Sut>, String>;
@@ -425,6 +427,10 @@ impl<I: Ind> Sut for W<I> {
     }
     fn load(&self, bytes: &[u8]) -> Result<Box<dyn Sut>, String> {
         bincode::deserialize::<I>(bytes).map(|i| Box::new(W(i)) as Box<dyn Sut>).map_err(|e| e.to_string())
+    }
+    fn load_reader(&self, bytes: &[u8]) -> Result<Box<dyn Sut>, String> {
+        // restore from an io::Read (a file, a socket): nothing can be borrowed from the input
+        bincode::deserialize_from::<_, I>(std::io::Cursor::new(bytes)).map(|i| Box::new(W(i)) as Box<dyn Sut>).map_err(|e| e.to_string())
     }
     fn save_json(&self) -> Result<String, String> {
         serde_json::to_string(&self.0).map_err(|e| e.to_string())
